@@ -47,6 +47,32 @@ def build_state(s, rnd, nprov=None, small=False):
         depth[u] = 1 if parent == '' else depth[parent] + 1
         if parent == '':
             roots.append(u)
+    # now and then the forest is re-arranged after it was built: a root adopted by another
+    # provider, so that descendants are older than their new ancestors
+    if len(roots) >= 2 and rnd.random() < 0.3:
+        for _ in range(rnd.randint(1, 2)):
+            if len(roots) < 2:
+                break
+            mover = rnd.choice(roots)
+            st = s.st
+            sub = {mover}
+            grew = True
+            while grew:
+                grew = False
+                for q, d in st['rp'].items():
+                    if d['parent'] in sub and q not in sub:
+                        sub.add(q)
+                        grew = True
+            height = 1 + max([0] + [depth[q] - depth[mover] for q in sub])
+            targets = [q for q in provs if q not in sub and depth[q] + height <= 3]
+            if not targets:
+                continue
+            tgt = rnd.choice(targets)
+            s.do(op='rp_update', v=39, u=mover, name=mover, parent=tgt)
+            delta = depth[tgt] + 1 - depth[mover]
+            for q in sub:
+                depth[q] += delta
+            roots.remove(mover)
     for u in provs:
         sharing = rnd.random() < 0.22
         ks = rnd.sample(CLASSES, rnd.choice([0, 1, 2, 2, 3, 3]) if not sharing else rnd.randint(1, 2))
